@@ -292,7 +292,7 @@ impl<'a> TryFrom<Token<'a>> for format::Expression<'a> {
 
     fn try_from(value: Token<'a>) -> Result<format::Expression<'a>, Self::Error> {
         match value {
-            Token::ArbitraryBlockData(s) => Ok(format::Expression(s)),
+            Token::ExpressionProgramData(s) => Ok(format::Expression(s)),
             t => {
                 if t.is_data() {
                     Err(ErrorCode::DataTypeError.into())
